@@ -165,6 +165,10 @@ func runC09(c *Ctx) error {
 	if err := walkSuite(c, "walk-ctx", cases); err != nil {
 		return err
 	}
+	// engine-level history: type-directed predicates over files with colliding type identities
+	if err := c09EngineHistories(c); err != nil {
+		return err
+	}
 	// context facts must not leak from one rule or node to the next *inside* a run either: rule sets drawn
 	// from a pool of context-sensitive rules (Contains presets, type-pattern variables, custom filters,
 	// Deadcode, Node.Parent, SinkType) must report exactly what each rule reports when run alone
